@@ -592,7 +592,7 @@ func lexDeclare(l *Lexer) lexFn {
 	switch r := l.next(); {
 	case r == '"':
 		// We have a quoted string e.g. "hello"
-		return lexString
+		return lexDeclaredString
 	case isValidIdent(r):
 		// We have something unquoted, i.e. another ident
 		return lexIdent
@@ -601,6 +601,24 @@ func lexDeclare(l *Lexer) lexFn {
 		l.backup()
 		return unexpectedToken
 	}
+}
+
+// lexDeclaredString scans the quoted string on the right hand side of a global variable
+// declaration, the opening quote is already known to exist. Unlike a string used as an
+// argument, a declaration ends with its line: only blanks may follow the closing quote.
+func lexDeclaredString(l *Lexer) lexFn {
+	if next := lexString(l); next == nil {
+		// Unterminated string, the error has already been emitted
+		return nil
+	}
+	for r := l.peek(); r == ' ' || r == '\t'; r = l.peek() {
+		l.next()
+	}
+	l.discard()
+	if l.atEOF() || l.atEOL() {
+		return lexStart
+	}
+	return unexpectedToken
 }
 
 // lexString scans a quoted string, the opening quote is already known to exist,
